@@ -32,13 +32,43 @@ class Conn:
         self.recv_exc = recv_exc
         self.nrecv = 0
 
-    async def send(self, m):
+    async def _send(self, m):
         i = self.nsend
         self.nsend += 1
         if i in self.fail_sends:
             self.rec.log("send-failed", m)
             raise ConnectionError("scripted send failure")
+        if getattr(self, "send_style", None):
+            await asyncio.sleep(0)                # the write completes a little later
         self.rec.log("send", m)
+
+    def send(self, m):
+        """what `await connection.send(m)` gets: a coroutine (default), a Task, or a custom awaitable -- adapters
+        around thread pools or other transports hand back futures"""
+        style = getattr(self, "send_style", None)
+        if style == "task":
+            return asyncio.ensure_future(self._send(m))
+        if style == "awaitable":
+            outer = self
+
+            class Aw:
+                def __await__(self_inner):
+                    return outer._send(m).__await__()
+            return Aw()
+        return self._send(m)
+
+    def __aiter__(self):
+        """like a websockets connection: iteration ends SILENTLY when the peer closes in an orderly way; the library
+        is specified to use recv() (and so to see the exception), this is only here for code that iterates instead"""
+        return self
+
+    async def __anext__(self):
+        i = self.nrecv
+        self.nrecv += 1
+        self.rec.log("recv", i)
+        if i < len(self.frames):
+            return self.frames[i]
+        raise StopAsyncIteration
 
     async def recv(self):
         i = self.nrecv
@@ -201,12 +231,13 @@ def make_cp_class(version, routes):
     return cls
 
 
-def observe_frame(version, routes, raw, async_validation=False, settle=3, send_ok=True, cls=None, prelude=None):
+def observe_frame(version, routes, raw, async_validation=False, settle=3, send_ok=True, cls=None, prelude=None, send_style=None):
     """Run one route_message(raw) on a fresh endpoint; return the ordered observation."""
     import ocpp.messages as M
 
     rec = Recorder()
     conn = Conn(rec, fail_sends=None if send_ok else {0})
+    conn.send_style = send_style
     if prelude:
         make_cp_class(version, prelude)       # another endpoint class, defined earlier in the process, never used
     if cls is None:
